@@ -52,10 +52,10 @@ var (
 	OnFire func(t *Timer)
 )
 
-func Now() Time               { mu.Lock(); defer mu.Unlock(); return now }
-func Since(t Time) Duration   { return Now().Sub(t) }
-func Until(t Time) Duration   { return t.Sub(Now()) }
-func Sleep(d Duration)        { SleepFunc(d) }
+func Now() Time                    { mu.Lock(); defer mu.Unlock(); return now }
+func Since(t Time) Duration        { return Now().Sub(t) }
+func Until(t Time) Duration        { return t.Sub(Now()) }
+func Sleep(d Duration)             { SleepFunc(d) }
 func After(d Duration) <-chan Time { return NewTimer(d).C }
 
 type Timer struct {
@@ -77,10 +77,43 @@ func newTimer(d Duration, f func()) *Timer {
 		t.C = t.c
 	}
 	timers = append(timers, t)
+	if d <= 0 {
+		fireDueLocked()
+	}
 	return t
 }
 
-func NewTimer(d Duration) *Timer             { return newTimer(d, nil) }
+// fireDueLocked fires every timer whose deadline is not after now (mu held; released while firing).
+func fireDueLocked() {
+	for {
+		var best *Timer
+		for _, t := range timers {
+			if !t.When.After(now) && (best == nil || t.When.Before(best.When) || (t.When.Equal(best.When) && t.id < best.id)) {
+				best = t
+			}
+		}
+		if best == nil {
+			return
+		}
+		remove(best)
+		best.active = false
+		mu.Unlock()
+		if OnFire != nil {
+			OnFire(best)
+		}
+		if best.f != nil {
+			GoFunc(best.f)
+		} else {
+			select {
+			case best.c <- best.When:
+			default:
+			}
+		}
+		mu.Lock()
+	}
+}
+
+func NewTimer(d Duration) *Timer            { return newTimer(d, nil) }
 func AfterFunc(d Duration, f func()) *Timer { return newTimer(d, f) }
 
 func (t *Timer) Stop() bool {
@@ -100,6 +133,9 @@ func (t *Timer) Reset(d Duration) bool {
 	t.active = true
 	t.When = now.Add(d)
 	timers = append(timers, t)
+	if d <= 0 {
+		fireDueLocked()
+	}
 	return was
 }
 
